@@ -247,6 +247,15 @@ CHECKS['C20'] = dict(
 
 NOT_YET = {}
 
+# what the four rounds of seeded changes added to every check (DESIGN.md 9.4)
+ORACLES_NOTE = (' Beside the theorems and the in-Coq correspondence the check runs, on the real library, the oracles that concern this '
+                'property from a shared set (harness/battery.py and the property module): reconnects with a stale partial frame / with '
+                'producers or lease-held requests in flight, requests issued around the loss of the connection, close by the creating '
+                'coroutine, wrappers (AwaitableRSocket, the Rx adapters, the GraphQL and load-balancer wrappers, the aiohttp websocket '
+                'transports), a whole endpoint on the real TCP transport read in every way, frame logging at DEBUG for a slice of the '
+                'histories; their situations are counted in the evidence file. These are tests of the implementation (they find the '
+                'failing input when something breaks), not part of the proof.')
+
 def main():
     props = [json.loads(l) for l in open('/verif/properties.jsonl')]
     checks = []
@@ -262,7 +271,7 @@ def main():
                 'evidence_file': '/verif/evidence/%s.json' % pid,
                 'replay_cmd_template': './check %s --replay {path}' % pid,
                 'engine': 'coq',
-                'level_claimed': {'category': c.get('category', 'proof'), 'text': c['text'], 'design_ref': c['design_ref']},
+                'level_claimed': {'category': c.get('category', 'proof'), 'text': c['text'] + ORACLES_NOTE, 'design_ref': c['design_ref']},
                 'level_note': c.get('note', TB),
                 'technique': c['technique'],
             })
